@@ -326,6 +326,7 @@ func mutateLengths(r *gen.RNG, f []byte, fm ref.FieldMap, emit func(string, []by
 			}
 		}
 	}
+	structuralMutations(f, fm, emit)
 	// a few random byte flips with the header intact
 	if len(f) > h.HdrLen {
 		for i := 0; i < 8; i++ {
@@ -456,4 +457,66 @@ func minInt(a, b int) int {
 		return a
 	}
 	return b
+}
+
+// structuralMutations removes and repeats whole elements of a valid frame —
+// a field, a string with its length prefix, a property with its identifier, a
+// key/value pair, the payload — keeping the remaining length consistent and,
+// in a second variant, the enclosing property length too: the frame stays
+// well delimited and the decoder meets an element too few or one too many.
+func structuralMutations(f []byte, fm ref.FieldMap, emit func(string, []byte)) {
+	h, err := ref.ParseHeader(f)
+	if err != nil {
+		return
+	}
+	var sections []ref.Span
+	for _, s := range fm {
+		if s.Kind == "@props" {
+			sections = append(sections, s)
+		}
+	}
+	count := 0
+	for _, s := range fm {
+		switch s.Kind {
+		case "@str", "@bin", "@pair", "@prop", "u8", "u16", "u32", "vbi", "propid", "payload":
+		default:
+			continue
+		}
+		if s.Off < h.HdrLen || s.Len == 0 || s.Off+s.Len > len(f) {
+			continue
+		}
+		count++
+		if count > 80 {
+			break
+		}
+		elem := f[s.Off : s.Off+s.Len]
+		for op, name := range []string{"del-" + s.Kind, "dup-" + s.Kind} {
+			var ins []byte
+			if op == 1 {
+				ins = append(append([]byte(nil), elem...), elem...)
+			}
+			body := make([]byte, 0, len(f)+len(ins))
+			body = append(body, f[h.HdrLen:s.Off]...)
+			body = append(body, ins...)
+			body = append(body, f[s.Off+s.Len:]...)
+			emit(name, ref.Reframe(f[0], body))
+			for _, sec := range sections {
+				oldLen, w, verr := ref.DecodeVBI(f[sec.Off:])
+				if verr != nil || s.Off < sec.Off+w || s.Off+s.Len > sec.Off+sec.Len {
+					continue
+				}
+				newLen := int64(oldLen) - int64(s.Len) + int64(len(ins))
+				if newLen < 0 || newLen > int64(ref.MaxVBI) {
+					continue
+				}
+				b2 := make([]byte, 0, len(f)+len(ins)+4)
+				b2 = append(b2, f[h.HdrLen:sec.Off]...)
+				b2 = ref.AppendVBI(b2, uint32(newLen))
+				b2 = append(b2, f[sec.Off+w:s.Off]...)
+				b2 = append(b2, ins...)
+				b2 = append(b2, f[s.Off+s.Len:]...)
+				emit(name+"-in-section", ref.Reframe(f[0], b2))
+			}
+		}
+	}
 }
